@@ -94,6 +94,7 @@ class Fn:
         self._preds = None
         self._dom = None
         self._live = None
+        self._defcount = None
 
     def __repr__(self):
         return '<Fn %s>' % self.name
@@ -114,12 +115,51 @@ class Fn:
         if k == 'goto':
             return [t['to']]
         if k == 'switch':
+            c = self._const_switch(bid, t)
+            if c is not None:
+                for v, tg in t['targets']:
+                    if int(v) == c:
+                        return [tg]
+                return [t['otherwise']]
             return [x[1] for x in t['targets']] + [t['otherwise']]
         if k in ('drop', 'assert'):
             return [t['to']]
         if k == 'call':
             return [t['to']] if t['to'] is not None else []
         return []
+
+    def _const_switch(self, bid, t):
+        """value of a switch discriminant that is a literal constant (e.g. `cfg!(debug_assertions)`
+        lowered to `_x = const false; switchInt(move _x)` at mir-opt-level 0), else None"""
+        on = t['on']
+        if on['k'] == 'const':
+            return int(on['int']) if 'int' in on else None
+        if on['k'] in ('copy', 'move') and not on['pl']['p']:
+            l = on['pl']['l']
+            val = None
+            for st in self.blocks[bid]['st']:
+                if st['s'] == 'assign' and st['lhs']['l'] == l and not st['lhs']['p']:
+                    rv = st['rv']
+                    if rv['r'] == 'use' and rv['op']['k'] == 'const' and 'int' in rv['op'] and 'named' not in rv['op']:
+                        val = int(rv['op']['int'])
+                    else:
+                        val = None
+            if val is not None and self._def_count(l) == 1:
+                return val
+        return None
+
+    def _def_count(self, l):
+        if self._defcount is None:
+            c = collections.Counter()
+            for b in self.blocks.values():
+                for st in b['st']:
+                    if st['s'] == 'assign':
+                        c[st['lhs']['l']] += 1
+                tt = b['term']
+                if tt['t'] == 'call':
+                    c[tt['dest']['l']] += 1
+            self._defcount = c
+        return self._defcount[l]
 
     def live_blocks(self):
         """non-cleanup blocks reachable from entry"""
